@@ -35,8 +35,18 @@ def vocsize():
     return VOCSIZE
 
 
-def trial(ra, rb, a_high, mangle=None, chunk=None, rng=None, dial_from="a"):
-    """-> (paramsA, paramsB, result kinds, exceptions)"""
+def trial(ra, rb, a_high, mangle=None, chunk=None, rng=None, dial_from="a", worlds=None):
+    """-> (paramsA, paramsB, result kinds, exceptions).  worlds (a VocabWorlds): each end holds its OWN module state of
+    foolscap.vocab (its own INITIAL_VOCAB_TABLES), see table_contents()"""
+    if worlds is not None:
+        try:
+            return _trial(ra, rb, a_high, mangle, chunk, rng, dial_from, worlds)
+        finally:
+            worlds.leave()
+    return _trial(ra, rb, a_high, mangle, chunk, rng, dial_from, None)
+
+
+def _trial(ra, rb, a_high, mangle, chunk, rng, dial_from, worlds):
     E.reset_clock()
     net = Net()
     net.mangle = mangle
@@ -48,9 +58,16 @@ def trial(ra, rb, a_high, mangle=None, chunk=None, rng=None, dial_from="a"):
     # 'parameters of the Broker created on each side': noted when the Broker is made (switchToBanana), because a Broker whose peer
     # refuses the decision does not live long enough to be seen in Tub.brokers when the network is quiet
     created = ([], [])
-    A.brokerClass = recording_broker(A.brokerClass, created[0])
-    B.brokerClass = recording_broker(B.brokerClass, created[1])
+    A.brokerClass = recording_broker(A.brokerClass, created[0], worlds and (worlds, "a"))
+    B.brokerClass = recording_broker(B.brokerClass, created[1], worlds and (worlds, "b"))
     trial.created = created
+    if worlds is not None:
+        # bytes for an end are handled in that end's own foolscap.vocab state (every use of the tables by negotiation -- hashing for
+        # the decision, comparing the decision's hash, loading the table into the new Broker -- happens inside dataReceived)
+        def in_world(link, side, d):
+            worlds.enter("a" if (link.server_tub if side == 0 else link.client_tub) is A else "b")
+            return mangle(link, side, d) if mangle else d
+        net.mangle = in_world
     trial.dialer_is_decider = (dial_from == "a") == a_high
     trial.a_is_decider = a_high
     src, dst = (A, B) if dial_from == "a" else (B, A)
@@ -70,7 +87,9 @@ def trial(ra, rb, a_high, mangle=None, chunk=None, rng=None, dial_from="a"):
     def params(t):
         out = []
         for b in t.brokers.values():
-            if not b.disconnected:
+            if not b.disconnected and worlds is not None:
+                out.append((b._banana_decision_version, table_of(b, worlds.tables("a" if t is A else "b"))))
+            elif not b.disconnected:
                 size = len(b.incomingVocabulary)
                 idx = [k for k, n in vocsize().items() if n == size]
                 from foolscap import vocab as _v
@@ -708,18 +727,302 @@ def trial_then_retry(r, a_high, mangle, rb=None):
     return first + second
 
 
-def recording_broker(base, log):
-    """a Broker class that notes (negotiated version, index of the initial vocabulary table it really starts with)"""
+def table_of(b, tables):
+    """index of the table in `tables` (index -> word list) that Broker b starts with, word for word and number for number in both
+    directions; ("table", size, first words) when it is none of them (or more than one)"""
+    inc, out = dict(b.incomingVocabulary), dict(b.outgoingVocabulary)
+    idx = [k for k, t in sorted(tables.items()) if inc == dict(enumerate(t)) and out == {w: i for i, w in enumerate(t)}]
+    return idx[0] if len(idx) == 1 else ("table", len(inc), [inc[k] for k in sorted(inc)][:3])
+
+
+def recording_broker(base, log, world=None):
+    """a Broker class that notes (negotiated version, index of the initial vocabulary table it really starts with); with
+    world = (VocabWorlds, end) the index is looked up in that end's own tables and the words themselves are noted as well"""
     from foolscap import vocab as _v
 
     class RecordingBroker(base):
         def __init__(self, *a, **kw):
             base.__init__(self, *a, **kw)
+            if world is not None:
+                inc = dict(self.incomingVocabulary)
+                log.append((self._banana_decision_version, table_of(self, world[0].tables(world[1]))))
+                world[0].words[world[1]].append(([inc[k] for k in sorted(inc)], sorted(inc) == list(range(len(inc))) and
+                                                dict(self.outgoingVocabulary) == {w: i for i, w in inc.items()}))
+                return
             words = sorted(self.incomingVocabulary.values())
             idx = [k for k, t in _v.INITIAL_VOCAB_TABLES.items()
                    if sorted(t) == words and sorted(self.outgoingVocabulary.keys()) == sorted(t)]
             log.append((self._banana_decision_version, idx[0] if len(idx) == 1 else ("table", len(words), words[:3])))
     return RecordingBroker
+
+
+# ---------------------------------------------------------------------------------------------
+# 'an initial vocabulary table both possess WITH MATCHING CONTENTS': each end really HOLDS its own tables, and an application may
+# change them while the process runs
+class VocabWorlds:
+    """two ends in one process, each with its OWN state of the module foolscap.vocab: every module-level dict of vocab.py
+    (INITIAL_VOCAB_TABLES and whatever else the module keeps) is switched -- in place, so that every importer sees it -- to the
+    receiving end's contents just before bytes are delivered to that end, saved again when the other end's turn comes, and put
+    back to what it was when the trial is over.  The list objects in an end's INITIAL_VOCAB_TABLES are that end's own and live
+    as long as the VocabWorlds object (= the process): an application extends them in place or replaces them."""
+
+    def __init__(self):
+        from foolscap import vocab
+        self.vocab = vocab
+        self.current = None
+        self.original = self._snapshot()
+        self.state = {}
+        self.words = {"a": [], "b": []}       # per end: (words of the Broker it created, number for number; well-formed both ways?)
+        for end in "ab":
+            self.state[end] = {n: dict(d) for n, d in self.original.items()}
+            self.state[end]["INITIAL_VOCAB_TABLES"] = {k: list(v) for k, v in vocab.INITIAL_VOCAB_TABLES.items()}
+
+    def _dicts(self):
+        return {n: d for n, d in vars(self.vocab).items() if isinstance(d, dict) and not n.startswith("__")}
+
+    def _snapshot(self):
+        return {n: dict(d) for n, d in self._dicts().items()}
+
+    def tables(self, end):
+        return dict(self.vocab.INITIAL_VOCAB_TABLES) if self.current == end else self.state[end]["INITIAL_VOCAB_TABLES"]
+
+    def enter(self, end):
+        if self.current == end:
+            return
+        self.leave()
+        for n, d in self._dicts().items():
+            d.clear()
+            d.update(self.state[end].get(n, {}))
+        self.current = end
+
+    def leave(self):
+        if self.current is None:
+            return
+        self.state[self.current] = self._snapshot()
+        for n, d in self._dicts().items():
+            d.clear()
+            d.update(self.original.get(n, {}))
+        self.current = None
+
+    def apply(self, end, op):
+        """one change an application makes to its tables between two negotiations (never while an end is current)"""
+        assert self.current is None
+        t = self.state[end]["INITIAL_VOCAB_TABLES"]
+        kind, i = op[0], op[1]
+        w = [x.encode("latin-1") if isinstance(x, str) else x for x in op[2:]]
+        if kind == "set":                     # a new list object
+            t[i] = list(w)
+        elif kind == "append":                # the same list object, extended in place
+            t[i].extend(w)
+        elif kind == "replace-append":        # a new list object with more words
+            t[i] = list(t[i]) + list(w)
+        elif kind == "drop-last":
+            del t[i][-1]
+        elif kind == "swap":                  # same words, two of them change places (in place)
+            t[i][w[0]], t[i][w[1]] = t[i][w[1]], t[i][w[0]]
+        elif kind == "change":                # one word replaced, same length (in place)
+            t[i][w[0]] = w[1]
+        elif kind == "del":
+            del t[i]
+        else:
+            raise ValueError(op)
+
+
+def published_hash(words):
+    """the published algorithm (test_banana.test_table_hashes): only used to keep accidental 16-bit collisions out of the inputs and
+    to give the Coq model a number for a table's contents -- the oracle compares CONTENTS"""
+    from hashlib import sha1
+    return sha1(b"\x00".join(words)).hexdigest()[:4]
+
+
+X2 = ["getStatus", "setStatus"]          # the words of an application's extra table 2, on top of the words of table 1
+V1 = None
+
+
+def _v1():
+    global V1
+    if V1 is None:
+        from foolscap import vocab
+        V1 = [w.decode("latin-1") for w in vocab.vocab_v1]
+    return V1
+
+
+def table_histories():
+    """the fixed histories (no random choice).  A step = (changes end A makes to its tables, changes end B makes, ranges of A, ranges
+    of B); every history is run in both tub-id orders and dialled from either end.  Families: an extra table 2 that one end
+    extends / replaces / reorders / shortens / edits AFTER a negotiation has used it, then the other end follows; table 1 itself
+    edited on one end after use; tables that differ from the very first negotiation; a table put back to what it was."""
+    v1 = _v1()
+    t2 = ("set", 2) + tuple(v1 + X2)
+    r2, r1, r12 = (1, 3, 0, 2), (1, 3, 0, 1), (2, 3, 1, 2)
+    H = {}
+    for name, op, follow in [
+            ("extend-in-place", ("append", 2, "plugin.frobnicate"), ("append", 2, "plugin.frobnicate")),
+            ("extend-replace", ("replace-append", 2, "plugin.frobnicate"), ("replace-append", 2, "plugin.frobnicate")),
+            ("reorder", ("swap", 2, 3, 7), ("swap", 2, 3, 7)),
+            ("shorten", ("drop-last", 2), ("drop-last", 2)),
+            ("edit-one-word", ("change", 2, 25, "getstatus"), ("change", 2, 25, "getstatus"))]:
+        for who in "ab":
+            mine, yours = ([op], []) if who == "a" else ([], [op])
+            mine2, yours2 = ([], [follow]) if who == "a" else ([follow], [])
+            H["table2/%s/%s-first" % (name, who)] = [([t2], [t2], r2, r2), (mine, yours, r2, r12), (mine2, yours2, r12, r2)]
+    for who in "ab":
+        op = ("replace-append", 1, "extra")
+        back = ("set", 1) + tuple(v1)
+        a1, b1 = ([op], []) if who == "a" else ([], [op])
+        a2, b2 = ([back], []) if who == "a" else ([], [back])
+        H["table1/edited-after-use-then-put-back/%s" % who] = [([], [], r1, r1), (a1, b1, r1, r1), (a2, b2, r1, r1)]
+        # differ from the first negotiation on (nothing hashed before), then made equal
+        d = ("set", 2) + tuple(v1 + X2[::-1])
+        a0, b0 = ([t2], [d]) if who == "a" else ([d], [t2])
+        a1, b1 = ([], [t2]) if who == "a" else ([t2], [])
+        H["table2/differs-from-the-start/%s" % who] = [(a0, b0, r2, r2), (a1, b1, r2, r2)]
+    # table 2 differs but the ranges settle on table 1 (equal): must connect; then on table 2: must not; then no common table
+    d = ("set", 2) + tuple(v1 + ["other"])
+    H["table2/differs-but-table1-chosen"] = [([t2], [d], r2, r1), ([], [], r2, r2), ([], [], r1, r2), ([], [], (1, 3, 0, 0), r12)]
+    return H
+
+
+TABLE_CONTENTS = "oracle/table-contents"
+
+
+def run_history(ctx, name, steps, a_high, dial0, chunk=None, rng=None):
+    """one history on the real code: the same two 'processes' (VocabWorlds) negotiate once per step with fresh Tubs, after each has
+    made the step's changes to its tables.  -> cases for the correspondence with the Coq model"""
+    worlds = VocabWorlds()
+    out, done = [], []
+    for k, (ops_a, ops_b, ra, rb) in enumerate(steps):
+        for end, ops in (("a", ops_a), ("b", ops_b)):
+            for op in ops:
+                worlds.apply(end, op)
+        ta, tb = worlds.tables("a"), worlds.tables("b")
+        for end, t, r in (("a", ta, ra), ("b", tb, rb)):
+            assert all(i in t for i in range(r[2], r[3] + 1)) and t.get(0) == [], "harness: an end offers a table it does not have"
+        dial = dial0 if k % 2 == 0 else ("b" if dial0 == "a" else "a")
+        worlds.words = {"a": [], "b": []}
+        done.append(dict(step=k, A_does=[list(o[:2]) + ["%d words" % (len(o) - 2)] if o[0] == "set" else list(o) for o in ops_a],
+                         B_does=[list(o[:2]) + ["%d words" % (len(o) - 2)] if o[0] == "set" else list(o) for o in ops_b],
+                         ra=ra, rb=rb, dial=dial))
+        pa, pb, res = trial(ra, rb, a_high, dial_from=dial, worlds=worlds, chunk=chunk, rng=rng)
+        exp = expected(ra, rb)
+        differ = exp is not None and list(ta[exp[1]]) != list(tb[exp[1]])
+        if differ:
+            assert published_hash(ta[exp[1]]) != published_hash(tb[exp[1]]), "harness: the two test tables collide in 16 bits"
+        cfg = dict(history=name, a_high=a_high, steps=done[:], ra=ra, rb=rb,
+                   tables=dict(A={i: "%d words, last %r" % (len(t), t[-1:]) for i, t in sorted(ta.items())},
+                               B={i: "%d words, last %r" % (len(t), t[-1:]) for i, t in sorted(tb.items())}))
+        judge_tables(ctx, cfg, exp, differ, pa, pb, res, worlds)
+        ctx.case(["tables", name, a_high, dial0, k], nontrivial=len(res) == 1)
+        ctx.hist("table_contents_step", "no-decision" if not exp else "table-%d-%s" % (exp[1], "differs" if differ else "equal"))
+        ctx.hist("table_contents_outcome", "banana" if pa else "failed")
+        hashes = tuple({i: int(published_hash(w), 16) for i, w in t.items()} for t in (ta, tb))
+        out.append(dict(ra=ra, rb=rb, a_high=a_high, tamper="hash" if differ else None, hashes=hashes, history=name, step=k,
+                        obs=observed(pa, pb), caller=caller_code(res), phases=list(trial.last_phases)))
+    return out
+
+
+def judge_tables(ctx, cfg, exp, differ, pa, pb, res, worlds):
+    """the second sentence of the property on two ends that HOLD the tables: both switch with the best common (version, table) and
+    start from the same words, number for number -- or, when the contents of the table decided on differ, the non-decider
+    refuses (and the decider's early switch is the known finding)"""
+    ca, cb = [list(x) for x in trial.created]
+    wa, wb = worlds.words["a"], worlds.words["b"]
+    cd, cn = (ca, cb) if cfg["a_high"] else (cb, ca)
+    rp = dict(config=cfg, A=pa, B=pb, created=dict(A=ca, B=cb), result=repr(res),
+              words=dict(A=[[len(w), repr(w[-2:]), ok] for w, ok in wa], B=[[len(w), repr(w[-2:]), ok] for w, ok in wb]),
+              dialer="decider" if trial.dialer_is_decider else "non-decider")
+    where = "history %r, step %d (tables: %r)" % (cfg["history"], len(cfg["steps"]) - 1, cfg["tables"])
+
+    def bad(what):
+        ctx.extra["table_content_violations"] = ctx.extra.get("table_content_violations", 0) + 1
+        if ctx.extra["table_content_violations"] > 4:          # the first few say it all
+            return False
+        ctx.fail(TABLE_CONTENTS, "%s; %s; decider = %s, configuration %r" % (what, where, "A" if cfg["a_high"] else "B",
+                                                                           {k: cfg[k] for k in ("ra", "rb", "steps")}), replay=rp)
+        return False
+    if any(not ok for w, ok in wa + wb):
+        return bad("a Broker was created whose incoming and outgoing tables are not the same numbered word list")
+    if wa and wb and wa[0][0] != wb[0][0]:
+        n = min(len(wa[0][0]), len(wb[0][0]))
+        first = next((i for i in range(n) if wa[0][0][i] != wb[0][0][i]), n)
+        return bad("both ends switched to the RPC protocol but they do NOT start from the same vocabulary: A's Broker starts with %d "
+                   "words, B's with %d, first difference at VOCAB #%d (%r / %r); created (version, own table) %r / %r"
+                   % (len(wa[0][0]), len(wb[0][0]), first, wa[0][0][first:first + 1], wb[0][0][first:first + 1], ca, cb))
+    caller_ok = len(res) == 1 and isinstance(res[0], type) and issubclass(res[0], NEGOTIATION_ERRORS)
+    if exp is None or not differ:
+        want = [exp] if exp else []
+        if ca != want or cb != want or pa != want or pb != want:
+            return bad("the two ends %s, so both must %s: A created %r (left %r), B created %r (left %r), the caller got %r"
+                       % ("hold the same contents for the best common table %d" % exp[1] if exp else "have no common version or table",
+                          "switch with (version, table) %r" % (exp,) if exp else "abandon", ca, pa, cb, pb, res))
+        if (exp and res != [42]) or (not exp and not caller_ok):
+            return bad("the caller got %r where %s was due" % (res, "the call's answer" if exp else "a negotiation error"))
+        return True
+    if cn or pa or pb or res == [42]:
+        return bad("the two ends hold DIFFERENT contents for table %d, yet the decision was not refused: the non-decider created %r, "
+                   "the decider %r (left %r / %r, caller got %r)" % (exp[1], cn, cd, pa, pb, res))
+    if len(res) != 1:
+        return bad("getReference/callRemote fired %d times" % len(res))
+    if cd:
+        ctx.fail(DECIDER_SWITCHED, "the non-decider refused the decision (the contents of table %d differ) but the decider had already "
+                 "created a Broker with %r; %s" % (exp[1], cd, where), replay=rp)
+        if not trial.dialer_is_decider and not caller_ok:
+            return bad("the non-decider dialled and refused the decision, but its caller did not get a negotiation error: %r" % (res,))
+        return True
+    if not caller_ok:
+        return bad("the attempt failed, but not with a negotiation error: the caller got %r" % (res,))
+    return True
+
+
+def table_contents(ctx):
+    """-> cases for the correspondence (model run with each end's own hashes)"""
+    cases, H = [], table_histories()
+    with quiet():
+        for n, (name, steps) in enumerate(sorted(H.items())):
+            # quick: every history once per tub-id order (the dialling end alternates); thorough: every combination
+            for a_high in (False, True):
+                for dial0 in (("a", "b") if ctx.tier != "quick" else ("a" if (n + a_high) % 2 else "b",)):
+                    cases += run_history(ctx, name, steps, a_high, dial0)
+        # thorough: random histories (random changes by either end between negotiations, random ranges over tables 0..2)
+        # and the fixed ones again under random chunking
+        for i in range(ctx.n(0, 120)):
+            cases_i = run_history(ctx, "random-%d" % i, random_history(ctx.rng), ctx.rng.random() < 0.5, ctx.rng.choice("ab"))
+            cases += cases_i if i < 40 else []
+        names = sorted(H)
+        for i in range(ctx.n(0, 60)):
+            name = ctx.rng.choice(names)
+            run_history(ctx, name + "/chunked-%d" % i, H[name], ctx.rng.random() < 0.5, ctx.rng.choice("ab"),
+                        chunk=lambda r: r.choice([1, 2, 3, 5, 8, 13, 40, 100]), rng=ctx.rng)
+    ctx.extra["table_content_histories"] = len(H)
+    ctx.extra["table_content_negotiations"] = len(cases)
+    ctx.sample(dict(kind="table-contents", case={k: v for k, v in cases[4].items() if k != "phases"}))
+    return cases
+
+
+def random_history(rng):
+    v1 = _v1()
+    t2 = ("set", 2) + tuple(v1 + X2)
+    steps = [([t2], [t2], (1, 3, 0, 2), (1, 3, 0, 2))]
+    fresh = 0
+    pending = []
+    for k in range(rng.randint(2, 5)):
+        ops = {"a": [], "b": []}
+        for j in range(rng.randint(0, 2)):
+            end = rng.choice("ab")
+            i = rng.choice([1, 2, 2])
+            fresh += 1
+            op = rng.choice([("append", i, "w%d" % fresh), ("replace-append", i, "w%d" % fresh), ("swap", i, rng.randrange(5), 5 + rng.randrange(5)),
+                             ("change", i, rng.randrange(10), "c%d" % fresh)])
+            ops[end].append(op)
+            pending.append(("b" if end == "a" else "a", op))
+        # sometimes the other end catches up with everything it has missed (then the tables are equal again)
+        if pending and rng.random() < 0.4:
+            for end, op in pending:
+                ops[end].append(op)
+            pending = []
+        rs = [(1, 3, 0, 2), (1, 3, 0, 1), (2, 3, 1, 2), (3, 3, 2, 2), (1, 2, 1, 1), (1, 3, 0, 0)]
+        steps.append((ops["a"], ops["b"], rng.choice(rs), rng.choice(rs)))
+    return steps
 
 
 # ---------------------------------------------------------------------------------------------
